@@ -102,7 +102,7 @@ func VerifC07_Match() {
 		ln := fmt.Sprintf("l%d", i)
 		// node i asks for l_i = "1" or for l_i = "" (the idiom for "label not set")
 		mval := "1"
-		if i <= 1+vfTier() { // (the first one or two children; kept small for the big trees)
+		if i == 1 { // (the first child; kept small for the big trees)
 			if vfBool("matchesUnset") {
 				mval = ""
 			}
@@ -115,7 +115,7 @@ func VerifC07_Match() {
 		crs[i].Matchers = append(crs[i].Matchers, mt)
 		// the label is absent, or its value is one symbolic byte: "does node i match"
 		// is symbolic
-		if i > 2 || !vfBool("labelAbsent") {
+		if i > 1+(1-vfTier()) || !vfBool("labelAbsent") { // (quick: nodes 1-2, thorough: node 1)
 			lset[model.LabelName(ln)] = model.LabelValue(vfString("v", 1))
 		}
 		if vfBool("continue") {
